@@ -322,3 +322,5 @@ ASSUMPTIONS = [
 OUTSIDE = ['hierarchies with more than 5 classes below the root', 'base orders other than ascending/descending',
            'virtual subclasses registered with ABCMeta.register (issubclass true, not in __subclasses__())',
            'classes collected while a world still refers to them']
+
+TECHNIQUE = 'symbolic enumeration of class DAGs (adjacency bits as solver variables) executed on the real World, issubclass oracle'
